@@ -71,6 +71,9 @@ package align
 //@     invariant bestseq != nil ==> (bestseq == seq || bestseq == revcomp) && 0 <= beststart && beststart <= bestend && bestend <= len(bestseq.sequence) && 0 <= nbgapstart
 //@   loop 3
 //@     invariant 0 <= i && nbgapstart == i
+// the aligned row of the sequence ends with a residue (anchored mode, contract of Alignment): the scan over its leading gaps stops before the end
+//@     invariant aligner != nil && len(aligner.seq2ali) >= 1 && aligner.seq2ali[len(aligner.seq2ali)-1] != '-'
+//@     invariant forall k :: 0 <= k && k < i ==> aligner.seq2ali[k] == '-'
 
 // ---- the fan-out of Phase: worker closure (Phase$1), closing closure (Phase$2) ----
 
